@@ -323,3 +323,25 @@ Proof.
     + right; right. exists d. split; auto. apply parse_project_urls_spec in P as [-> _]. cbn [app]. now apply in_map.
   - left. exists (uvalues items n). split; auto. unfold uvalues. now apply in_map.
 Qed.
+
+(* the iteration order of frozenset(parsed.keys()) - and how often a name occurs in it - is irrelevant: any list with the same
+   elements as the set of header names leaves the same two dicts (same lookups) *)
+Theorem loop_order_irrelevant items ns : (forall n, In n ns <-> In n (key_set items)) ->
+  let st := fold_left (step items) ns ([], []) in
+  (forall k, lookup k (fst st) = lookup k (fst (loop_result items))) /\ (forall m, lookup m (snd st) = lookup m (snd (loop_result items))).
+Proof.
+  intros H. cbn zeta. rewrite fold_step_stepl.
+  assert (HL : forall n, In n (map lower_name ns) <-> In n (lnames items)).
+  { intros n. unfold lnames. rewrite !in_map_iff. split; intros [x [E I]]; exists x; split; auto; now apply H. }
+  split.
+  - intros k. destruct (lookup k (fst (loop_result items))) as [v|] eqn:L.
+    + apply loop_raw in L as [n [I C]]. apply fold_raw. left. exists n. split; auto. now apply HL.
+    + destruct (lookup k (fst (fold_left (stepl items) (map lower_name ns) ([], [])))) as [v|] eqn:L'; auto.
+      apply fold_raw in L' as [[n [I C]]|[_ L']]; [|discriminate]. apply HL in I.
+      assert (lookup k (fst (loop_result items)) = Some v) by (apply loop_raw; eauto). congruence.
+  - intros m. destruct (lookup m (snd (loop_result items))) as [vs|] eqn:L.
+    + apply loop_unp in L as [I [C ->]]. apply fold_unp. left. split; auto. now apply HL.
+    + destruct (lookup m (snd (fold_left (stepl items) (map lower_name ns) ([], [])))) as [vs|] eqn:L'; auto.
+      apply fold_unp in L' as [[I [C ->]]|[_ L']]; [|discriminate]. apply HL in I.
+      assert (lookup m (snd (loop_result items)) = Some (uvalues items m)) by (apply loop_unp; auto). congruence.
+Qed.
